@@ -249,17 +249,17 @@ TRestart == /\ Is("c.restart") /\ Step
             /\ Frame({"drops", "applied", "inq", "batch", "pb", "cursor", "taken", "unsent", "lead", "startHigh", "ord", "lastIdx"})
 TSnap == /\ Is("c.snap") /\ Step
          /\ LET n == Ev.node
-                mem == batch[n] \o (IF pb[n] = <<>> THEN <<>> ELSE pb[n][2])
-                b1 == Flag(bad, {g \in Gone(n, mem) : g[1] <= Ev.idx} = {}, "snapshot-before-batcher-reached-fifo")
-                b2 == Flag(b1, {g \in Gone(n, inq[n]) : g[1] <= Ev.idx} = {}, "snapshot-with-groups-still-in-channel")
-            IN bad' = b2
+                mem == inq[n] \o batch[n] \o (IF pb[n] = <<>> THEN <<>> ELSE pb[n][2])
+            IN bad' = Flag(bad, {g \in Gone(n, mem) : g[1] <= Ev.idx} = {}, "snapshot-before-changes-reached-fifo")
          /\ snapIdx' = [snapIdx EXCEPT ![Ev.node] = Ev.idx]
          /\ Frame({"bad", "snapIdx"})
 (* quiescent, endpoint up, one stable leader: every group of the committed log must have been delivered *)
 TFinal == /\ Is("c.final") /\ Step
           /\ LET want == {<<Ev.groups[x][1], Ev.groups[x][2]>> : x \in 1..Len(Ev.groups)}
                  lost == want \ DeliveredIds
+                 held(x) == \E n \in Node : unsent[n] # <<>> /\ \E g \in Range(unsent[n][2]) : Id(g) = x
                  why(x) == {d[3] : d \in {y \in drops : y[1] = x[1] /\ y[2] = x[2]}}
+                           \cup (IF held(x) THEN {"lost:unsent-batch-skipped-after-leadership-change"} ELSE {})
                  names == UNION {IF why(x) = {} THEN {"lost:unexplained"} ELSE why(x) : x \in lost}
              IN bad' = bad \cup {<<l, nm>> : nm \in names}
           /\ Frame({"bad"})
